@@ -11,6 +11,15 @@ from pathlib import Path
 
 ROOT = Path(__file__).resolve().parent.parent
 
+WHAT = {
+    "C04": "the instrumented run loop and the control surface (pause / step / resume, time / count / metric / condition breakpoints incl. ones added by hooks, reset with replay of pre-run events and their metadata) over the C01 engine and process model",
+    "C10": "the five rate-limiter policies in exact integer arithmetic (adaptive: epochs of feedback), RateLimitedEntity and Inductor as entity transition systems with their queue capacity, and the DistributedRateLimiter over a shared counter store",
+    "C17": "primary-backup, chain replication (with CRAQ) and multi-leader replication (LWW, vector-clock and merging resolvers, anti-entropy) as message-passing systems",
+    "C18": "Lamport / vector (dict-keyed, partial membership) / hybrid logical clocks over message histories, the G/PN-counter, LWW-register and OR-set CRDTs with replica systems, and the CRDTStore gossip protocol (push / response, adoption, lossless rounds)",
+    "C19": "MessageQueue with its dead-letter queue and redelivery timers, Topic, EventLog, ConsumerGroup and the three assignment strategies, stream windows (tumbling / sliding / session), OutboxRelay and IdempotencyStore",
+    "C20": "Bloom, Count-Min, HyperLogLog registers, space-saving TopK, reservoir, Merkle tree, the t-digest quantile walk over a centroid list, and sketch programs (merge / clear / lookup sequences) with the hash as a parameter",
+}
+
 
 def main():
     m = json.loads((ROOT / "MANIFEST.json").read_text())
@@ -21,7 +30,7 @@ def main():
         partial = list((getattr(P, "partial_theorems", {}) or {}).keys())
         old = c["level_claimed"]["text"]
         mm = re.search(r"model of (.*?); the model is tied", old, re.S)
-        what = mm.group(1) if mm else "the anchored components (see DESIGN.md §13.3)"
+        what = WHAT.get(pid) or (mm.group(1) if mm and mm.group(1).strip() else "the anchored components (see DESIGN.md §13.3)")
         shown = ", ".join(names[:16]) + (f", … ({len(names)} in all, listed in evidence/{pid}.json)" if len(names) > 16 else "")
         text = (f"Lean 4 theorems, unbounded over all inputs / operation lists / schedules ({shown}) about a hand-written "
                 f"executable model of {what}; the model is tied to /repo on every run by driving the real objects and the model with "
